@@ -115,7 +115,7 @@ def _fold(term):
 
 class Sym:
     __slots__ = ("t",)
-    __array_priority__ = 1000  # python scalar op ndarray -> let ndarray handle; harmless
+
 
     def __hash__(self):
         return id(self)
